@@ -120,6 +120,7 @@ def run(ctx):
         ctx.oblige(x.startswith(ENSURE_ALLOWED), "C18.2", "ensure_allocated-caller:" + x,
                    "force-allocation of a caller-chosen page id outside the pager / WAL page replay", F.bodies[x].file)
     complete_walk_rule(ctx, "C18.3")
+    _c18_high_water(ctx)
 
 
 def complete_walk_rule(ctx, rid):
@@ -159,3 +160,35 @@ def complete_walk_rule(ctx, rid):
         ctx.oblige(ok, rid, "walk-skips:%s" % a.split("::")[-1],
                    "the reachability walk does not follow `%s`: pages reachable only through that pointer are dropped by vacuum while the tree "
                    "still references them, and the allocator hands them to the next structure that grows" % a.split("::")[-1], wb.file)
+
+
+def _c18_high_water(ctx):
+    """C18.4: whoever marks a page allocated keeps the allocation high-water mark above it"""
+    F = ctx.facts
+    ctx.rule("C18.4", "every Pager method that sets an allocation bit keeps Meta.next_page_id above the page (assigns it in the same method): pages claimed by address — node table, WAL page replay — must not stay at or above the mark the allocator hands out from")
+    SET = "nervusdb_storage::pager::Bitmap::set_allocated"
+    n = 0
+    for i, b in sorted(F.bodies.items()):
+        if not i.startswith("nervusdb_storage::pager::Pager::") or "::tests::" in i or b.root:
+            continue
+        sets = []
+        for c in b.calls():
+            if c.name != SET or len(c.args) < 3:
+                continue
+            v = c.args[2]
+            if v[0] == "k" and not v[1].get("v"):
+                continue  # clearing a bit (free_page)
+            sets.append(c)
+        if not sets:
+            continue
+        n += 1
+        writes = []
+        for blk in b.blocks:
+            for st in blk["s"]:
+                if st[0] == "a" and any(isinstance(p, list) and p[0] == "f" and p[2] == "next_page_id" and str(p[3]).endswith("pager::Meta") for p in st[1][1]):
+                    writes.append(st[3])
+        ctx.instance("C18.4", "%s: sets an allocation bit; assigns Meta.next_page_id at lines %s" % (i.split("::")[-1], writes or "nowhere"))
+        ctx.oblige(bool(writes), "C18.4", "%s:marks-without-raising-next_page_id" % i.split("::")[-1],
+                   "%s marks a page allocated without keeping next_page_id above it: allocate_page hands out next_page_id without looking at its bit, so the "
+                   "next structure that grows receives a page another structure already owns" % i.split("::")[-1], b.file)
+    ctx.floor("C18.4", "Pager methods that set allocation bits", n, 1)
